@@ -1,4 +1,5 @@
 import Cadence.Model.QueueRun
+import Cadence.Model.Queue0
 import Driver.Util
 /-! driver side of engine `queue` -/
 namespace Drv.QueueE
@@ -158,7 +159,22 @@ def runQueue0 (_prop : String) (f : List String) (obsS : String) : Verdict :=
   let v := if bad then some ("C20", "a zero-capacity queuing sink panicked or blocked a caller")
     else if over then some ("C10", "a zero-capacity queue accepted a metric while the worker was busy inside the wrapped sink (capacity exceeded)")
     else none
-  ⟨true, "", "", v, ["queue-capacity-0"], false⟩
+  -- correspondence with the rendezvous model (`Cadence.Model.Queue0`): whether an emit finds the worker
+  -- waiting is a race the harness does not steer, so a refusal is taken from the implementation; everything
+  -- else (an acceptance only when the model's worker waits, deliveries, release, counters) is the model's
+  let hh := match f with | [_, hS, _] => hS == "1" || hS == "2" | _ => false
+  let keep := (ops.zip obs).filter fun (o, _) => !o.startsWith "w"
+  match (keep.map (·.1)).mapM parseOp, (keep.map (·.2)).mapM parseObs1 with
+  | some hops, some impl =>
+    if bad || hops.length != impl.length then ⟨true, "", "", v, ["queue-capacity-0"], false⟩ else
+    let refused := impl.map fun o => match o.res with | .err _ => true | _ => false
+    let model := Queue0.modelRun hh (hops.zip refused)
+    let ip := project _prop impl
+    let mp := project _prop model
+    let tags := ["queue-capacity-0"] ++ (opTags hops model).map (· ++ "-cap0") ++
+      (if model.any (fun o => match o.res with | .ok (some _) => true | _ => false) then ["accepted-cap0"] else [])
+    ⟨ip == mp, ip, mp, v, tags, false⟩
+  | _, _ => ⟨true, "", "", v, ["queue-capacity-0"], false⟩
 
 def runStress (_prop : String) (_f : List String) (obsS : String) : Verdict :=
   if obsS == "ok" then ⟨true, "ok", "ok", none, ["stress"], false⟩
